@@ -112,7 +112,7 @@ def obj_spec(draw):
 
 @st.composite
 def step(draw):
-    kind = draw(st.sampled_from(["call", "call", "set_efth", "set_dir", "set_freq", "partition_other", "bad_stat", "attr_lookup", "reader", "fit", "observe", "observe", "observe"]))
+    kind = draw(st.sampled_from(["call", "call", "set_efth", "set_dir", "set_freq", "partition_other", "bad_stat", "attr_lookup", "reader", "file_roundtrip", "fit", "observe", "observe", "observe"]))
     s = dict(kind=kind, obj=draw(st.integers(0, 2)), via=draw(st.sampled_from(["dataset", "array"])))
     if kind in ("call", "observe"):
         s["op"] = draw(ops.op_spec(names=OBS_OPS_DS, has_dir=True, nf=3))
@@ -140,6 +140,8 @@ def step(draw):
         s["which"] = draw(st.sampled_from(["ww3", "ncswan", "wwm"]))
     elif kind == "fit":
         s["which"] = draw(st.sampled_from(["fit_jonswap", "fit_gaussian"]))
+    elif kind == "file_roundtrip":
+        s["which"] = draw(st.sampled_from(["swan", "swan-1dir", "json", "octopus", "netcdf"]))
     return s
 
 
@@ -347,6 +349,41 @@ def check_history(case, ctx):
             _ = A.ATTRS[s["name"]]
             _ = A.ATTRS[s["name"]]["units"]
             looked += 1
+        elif k == "file_roundtrip":
+            # a file written from the live object's current contents and read back with the matching reader, both discarded
+            import shutil
+            import wavespectra as _ws
+
+            wd = os.path.join(env.workdir(), "c18")
+            os.makedirs(wd, exist_ok=True)
+            try:
+                dsl = L.obj if L.kind == "Dataset" else L.obj.to_dataset(name="efth")
+                dsl = dsl.copy(deep=True)
+                if "site" not in dsl.dims:
+                    dsl = dsl.expand_dims(site=[1])
+                    dsl["lon"] = (("site",), [150.0])
+                    dsl["lat"] = (("site",), [-30.0])
+                w_ = s["which"]
+                if w_ == "swan-1dir":
+                    dsl = dsl.isel(dir=[0])
+                pth = os.path.join(wd, "h." + {"swan": "spec", "swan-1dir": "spec", "json": "json", "octopus": "oct", "netcdf": "nc"}[w_])
+                if w_.startswith("swan"):
+                    dsl.spec.to_swan(pth)
+                    _ws.read_swan(pth)
+                elif w_ == "json":
+                    dsl.spec.to_json(pth)
+                    _ws.read_json(pth)
+                elif w_ == "octopus":
+                    dsl.isel(site=0).spec.to_octopus(pth)
+                    _ws.read_octopus(pth)
+                else:
+                    dsl.spec.to_netcdf(pth, ncformat="NETCDF3_64BIT", compress=False)
+                    _ws.read_netcdf(pth).load().close()
+            except Exception:  # noqa: BLE001 - discarded call
+                pass
+            finally:
+                shutil.rmtree(wd, ignore_errors=True)
+            suspicious = 3
         elif k == "fit":
             try:
                 r = getattr(L.efth().spec, s["which"])()
